@@ -8,6 +8,7 @@ import (
 	"time"
 
 	"github.com/TheManticoreProject/Manticore/network/llmnr"
+	"github.com/TheManticoreProject/Manticore/zz_verif/vcontext"
 	"github.com/TheManticoreProject/Manticore/zz_verif/vnet"
 	"github.com/TheManticoreProject/Manticore/zz_verif/vrt"
 	"github.com/TheManticoreProject/Manticore/zz_verif/vtime"
@@ -329,7 +330,7 @@ func llmnrScenarios(c *vf.Ctx, B int) []*scenario {
 		}
 	}
 	// client: two concurrent queries against a scripted responder
-	for _, mode := range []string{"in-order", "reversed", "only-first", "unknown-id-first", "duplicate", "triplicate", "question-in-other-case"} {
+	for _, mode := range []string{"in-order", "reversed", "only-first", "unknown-id-first", "duplicate", "triplicate", "question-in-other-case", "other-query-has-an-earlier-context-deadline"} {
 		mode := mode
 		out = append(out, &scenario{name: "llmnr-client-2queries/" + mode, keys: []string{"query-returns-response-with-own-id", "answered-query-does-not-time-out", "unanswered-query-times-out", "readloop-exits-after-close"}, bound: B, body: func(x *exec) {
 			clientScenario(x, mode, false)
@@ -369,7 +370,15 @@ func clientScenario(x *exec, mode string, closeRace bool) {
 	for i := 0; i < 2; i++ {
 		i := i
 		ths = append(ths, vrt.GoNamed("query-"+qn[i], func() {
-			m, err := cl.Query(context.Background(), qn[i], llmnr.TypeA)
+			ctx := context.Background()
+			if mode == "other-query-has-an-earlier-context-deadline" && i == 0 {
+				// hostx gives up after 10 ms (nobody answers it); hosty is answered after 50 ms and must get its answer:
+				// one query's deadline is that query's business, the socket and its read loop are shared
+				var cancel context.CancelFunc
+				ctx, cancel = vcontext.WithTimeout(ctx, 10*time.Millisecond)
+				defer cancel()
+			}
+			m, err := cl.Query(ctx, qn[i], llmnr.TypeA)
 			res[i] = qres{m, err}
 		}))
 	}
@@ -421,6 +430,14 @@ func clientScenario(x *exec, mode string, closeRace bool) {
 			}
 		}
 		switch mode {
+		case "other-query-has-an-earlier-context-deadline":
+			vrt.Sleep(sec / 20)
+			for _, q := range got {
+				if q.m.Questions[0].Name == "hosty" {
+					reply(q, q.m.ID)
+					answered["hosty"] = true
+				}
+			}
 		case "reversed":
 			for i := len(got) - 1; i >= 0; i-- {
 				reply(got[i], got[i].m.ID)
